@@ -174,6 +174,10 @@ func parseRadialGradientParameters(arguments [][]Token) radialGradientParameters
 		} else if (keyword == "closest-corner" || keyword == "farthest-corner" || keyword == "closest-side" || keyword == "farthest-side") && size.IsNone() {
 			size = pr.GradientSize{Keyword: keyword}
 		} else {
+			if !size.IsNone() {
+				// the size is already known: nothing else is expected
+				return radialGradientParameters{}
+			}
 			if len(stack) > 0 && size.IsNone() {
 				length1 := getLength(token, true, true)
 				length2 := getLength(stack[len(stack)-1], true, true)
@@ -711,6 +715,8 @@ func getContentListToken(token Token, baseUrl string) (pr.ContentProperty, error
 			}
 		case pa.String:
 			str = arg.Value
+		default:
+			return pr.ContentProperty{}, nil
 		}
 		return pr.ContentProperty{Type: "leader()", Content: pr.Strings{"string", str}}, nil
 	} else if name == "element" { // <element>
